@@ -194,6 +194,26 @@ func raceStress(args []string) error {
 		}
 	}
 	inputs := corpus.All(1)
+	// fonts with different glyph sets and encodings, written by all goroutines at the same time: every
+	// output must be the one a single goroutine gets (taken before the others start)
+	var wfonts []*type1.Font
+	wrng := rand.New(rand.NewSource(11))
+	for _, e := range []string{"holes", "std-subset", "custom", "none", "std-plus"} {
+		wfonts = append(wfonts, fontgen.Generate(wrng, fontgen.Opts{NGlyphs: 3 + len(wfonts)*2, Encoding: e, Zone: "utc"}))
+	}
+	// two fonts that differ in one StandardEncoding glyph only: one owns "A" but leaves its code unassigned, the other lacks it
+	{
+		a := fontgen.Generate(wrng, fontgen.Opts{NGlyphs: 4, Encoding: "std-subset", Zone: "utc"})
+		if len(a.Encoding) == 256 {
+			a.Encoding[65] = ".notdef"
+		}
+		b := fontgen.Generate(wrng, fontgen.Opts{NGlyphs: 4, Encoding: "std-subset", Zone: "utc"})
+		delete(b.Glyphs, "A")
+		if len(b.Encoding) == 256 {
+			b.Encoding[65] = ".notdef"
+		}
+		wfonts = append(wfonts, a, b)
+	}
 	type res struct{ k, v string }
 	var mu sync.Mutex
 	got := map[string]map[string]bool{}
@@ -204,6 +224,16 @@ func raceStress(args []string) error {
 		}
 		got[k][v] = true
 		mu.Unlock()
+	}
+	writeAll := func(k int) {
+		for _, ft := range t1Formats {
+			var buf bytes.Buffer
+			wfonts[k].Write(&buf, &type1.WriterOptions{Format: ft.f})
+			rec(fmt.Sprintf("write:font%d/%s", k, ft.name), sha(buf.Bytes()))
+		}
+	}
+	for k := range wfonts {
+		writeAll(k) // the sequential reference
 	}
 	start := make(chan struct{})
 	var wg sync.WaitGroup
@@ -234,6 +264,8 @@ func raceStress(args []string) error {
 					ws = append(ws, corpus.ObjDigest(o))
 				}
 				rec(fmt.Sprintf("workout:%d", k), fmt.Sprint(werr, ws))
+				writeAll((g + r) % len(wfonts))
+				writeAll((g*3 + r + 1) % len(wfonts))
 				if in.Entry == "type1" && r%3 == 0 {
 					if ft, err := type1.Read(bytes.NewReader(in.Data)); err == nil {
 						var buf bytes.Buffer
